@@ -16,6 +16,24 @@ CHECKS = {
    note="No schedule or clock is involved: the technique contributes the fault model on the bytes the parser reads. Text <= 64 KiB, paren depth <= 64."),
 }
 
+CHECKS.update({
+ "C04": dict(cat="exploration", ref="D5 C04", tech="deterministic simulation + refinement against an executable reference model of the layered keymap (seeded config x history search)",
+   text="Seeded search over configurations of the layered fragment (1-4 layers as deflayer/deflayermap, 2-6 keys, both transparent-resolution settings, delegate-to-first-layer, block/process-unmapped-keys) x physically consistent histories (<= 60 events, 0-3 ms gaps, < 32 pending); the real Kanata's OS output (ms, kind, key) must equal, event for event, the output of a 150-line reference model written from the property statement (FIFO one event per ms, search order newest held layer..base..first layer..defsrc, nested transparent continues below, release by coordinate, clear-on-next-action chords, ordered de-duplicated diff).",
+   note="runs with >= 32 pending events or a full 64-entry state vector are outside the model and counted as skipped; key-name table trusted (C11)."),
+ "C05": dict(cat="exploration", ref="D5 C05", tech="deterministic simulation over the boundary grid of schedules with exact-tick reference function (tap/hold/timeout decision) + trace invariants",
+   text="All 7 tap-hold variants with three distinct marker actions, H in {1,2,5,50,200}, tap-repress windows, concurrent-tap-hold on/off, rapid-event-delay {0,5}; schedules of <= 8 events with gaps from {0,1,H-1,H,H+1,...}. Oracle: exactly one of tap/hold/timeout per press; for a press into a drained engine the decision AND its tick equal a reference function written from the docs + the tick conventions; early triggers per variant; keys pressed while undecided are neither lost, duplicated, reordered nor output before the decision; re-press inside the window = tap held.",
+   note="exact tick constants are conventions of the pinned tree (DESIGN.md D5); sampling of the grid, fraction reached reported."),
+ "C06": dict(cat="exploration", ref="D5 C06", tech="deterministic simulation over structured schedules at timeout boundaries with trace-invariant oracle",
+   text="All one-shot end variants x payload key / output chord / layer, T in {1,2,10,100}, rapid-event-delay {0,1,5}; populations: exact expiry tick, next key (press vs release variants: first key modified, later keys not), held, stacked (combine + restart), re-press (pcancel ends, others restart), 17-20 stacked one-shots (table overflow), always ending with nothing down.",
+   note="a following key arriving within a few ms (number of events in flight + 3) of the expiry instant is counted but not judged (time is counted when events are processed)."),
+ "C07": dict(cat="exploration", ref="D5 C07", tech="deterministic simulation, differential: ticking run vs idle-blocking run of the same seeded history on fresh instances",
+   text="For generated configurations with all time-dependent features and histories with gaps up to 70 s, two executions (never skip vs skip whenever the real can-block decision is true) must produce identical output traces with time measured relative to the preceding input, and the ticking run must output nothing between a true can-block decision and the next input.",
+   note="part 1 (stepper) only so far; the real threaded loop (part 2) is exercised by the executor-B population when present."),
+ "C17": dict(cat="exploration", ref="D5 C17", tech="deterministic simulation over tap schedules at the timeout boundary with a reference segmentation function",
+   text="Lazy and eager tap-dance with 1-4 marker actions, T in {2,5,20,200}; 1-6 taps with press-to-press gaps from {T-1,T,T+1,...}, optionally interrupted by another key, last tap optionally held. A reference function segments taps into dances (gap < T, list exhausted, other key) and predicts the exact sequence of actions; the chosen action must stay pressed until the final release.",
+   note="gaps in [T, T+3+rapid-event-delay] accept both outcomes (queue latency of the press that starts the next dance), everything else is exact."),
+})
+
 NA = {
  "C11": "pure function of a 16-bit code / key name / config (discriminant tables, a transmute, set construction): no schedule, clock, fault or interleaving for a simulator to vary (DESIGN.md D7)",
 }
